@@ -122,6 +122,8 @@ fn dispatch(args: &[String]) -> i32 {
         Some("digest") => cmd_digest(&args[2..]),
         Some("dump") => cmd_dump(&args[2..]),
         Some("steplog") => cmd_steplog(&args[2..]),
+        Some("seqscan") => cmd_seqscan(&args[2..]),
+        Some("batchreplay") => cmd_batchreplay(&args[2..]),
         _ => {
             eprintln!("usage: ixsim run|replay|digest ...");
             2
@@ -247,6 +249,9 @@ fn cmd_replay(args: &[String]) -> i32 {
             return 2;
         }
     };
+    if text.contains("\"histsim-batch\"") {
+        return cmd_batchreplay(args);
+    }
     let rp: Replay = match serde_json::from_str(&text) {
         Ok(r) => r,
         Err(e) => {
@@ -359,8 +364,12 @@ fn cmd_run(args: &[String]) -> i32 {
                 code = 1;
             }
             Ok(r) => {
-                println!("HARNESS-ERROR: minimised replay {} did not reproduce in a fresh process (exit {:?})", path, r.status.code());
-                code = 2;
+                println!(
+                    "note: the op list of run {} alone does not reproduce in a fresh process (exit {:?}): the violation depends on state outside the run",
+                    idx,
+                    r.status.code()
+                );
+                code = batch_fallback(prop, &o, &replay_dir, &mf);
             }
             Err(e) => {
                 println!("HARNESS-ERROR: cannot spawn replay: {}", e);
@@ -394,6 +403,107 @@ fn cmd_run(args: &[String]) -> i32 {
         out.wall
     );
     code
+}
+
+/// A violation that a run's own op list does not reproduce depends on state that earlier runs left
+/// behind in the process (a static or thread-local in the library: itself a defect). The
+/// reproducible unit then is a *sequence of runs* executed on one thread in a fresh process:
+/// scan the batch sequentially for the first violating run, then look for one earlier run that
+/// suffices as its predecessor.
+fn batch_fallback(prop: &str, o: &BatchOpts, replay_dir: &str, f: &Found) -> i32 {
+    let exe = std::env::current_exe().unwrap();
+    let limit = o.runs.min(50_000);
+    let scan = std::process::Command::new(&exe)
+        .args(["seqscan", "--prop", prop, "--seed", &o.batch_seed.to_string(), "--limit", &limit.to_string()])
+        .output();
+    let first: Option<u64> = match &scan {
+        Ok(r) => String::from_utf8_lossy(&r.stdout)
+            .lines()
+            .find_map(|l| l.strip_prefix("SEQ-FIRST ").and_then(|x| x.split_whitespace().next().and_then(|n| n.parse().ok()))),
+        Err(_) => None,
+    };
+    let Some(last) = first else {
+        println!("HARNESS-ERROR: the violation ({}) does not reproduce in a sequential single-thread scan of the first {} runs either", f.viol.kind, limit);
+        return 2;
+    };
+    let write = |runs: &[u64], path: &str| {
+        let j = serde_json::json!({
+            "engine": "histsim-batch", "engine_version": run::ENGINE_VERSION, "property": prop,
+            "batch_seed": o.batch_seed, "runs": runs, "profile": o.profile, "features": o.features,
+            "violation": {"kind": f.viol.kind, "detail": f.viol.detail},
+            "note": "generated runs executed one after the other on one thread in a fresh process; the last one violates the property only because of state the earlier ones left behind in the process"
+        });
+        let _ = std::fs::write(path, serde_json::to_string_pretty(&j).unwrap());
+    };
+    let reproduces = |path: &str| -> bool {
+        matches!(std::process::Command::new(&exe).arg("batchreplay").arg(path).output(), Ok(r) if r.status.code() == Some(1))
+    };
+    let _ = std::fs::create_dir_all(replay_dir);
+    let path = format!("{}/{}-{}-{}-batch.json", replay_dir, prop, o.batch_seed, last);
+    let mut chosen: Option<Vec<u64>> = None;
+    for j in (last.saturating_sub(400)..last).rev() {
+        write(&[j, last], &path);
+        if reproduces(&path) {
+            chosen = Some(vec![j, last]);
+            break;
+        }
+    }
+    let runs = chosen.unwrap_or_else(|| (0..=last).collect());
+    write(&runs, &path);
+    if reproduces(&path) {
+        println!("batch replay: runs {:?}{} reproduce it sequentially", &runs[..runs.len().min(4)], if runs.len() > 4 { ".." } else { "" });
+        println!("VIOLATION property={} replay={}", prop, path);
+        1
+    } else {
+        println!("HARNESS-ERROR: batch replay {} does not reproduce", path);
+        2
+    }
+}
+
+fn cmd_seqscan(args: &[String]) -> i32 {
+    let prop = arg(args, "--prop").unwrap_or("C01").to_string();
+    let seed: u64 = arg(args, "--seed").and_then(|s| s.parse().ok()).unwrap_or(1);
+    let limit: u64 = arg(args, "--limit").and_then(|s| s.parse().ok()).unwrap_or(10_000);
+    let t0 = std::time::Instant::now();
+    for idx in 0..limit {
+        if t0.elapsed() > Duration::from_secs(90) {
+            break;
+        }
+        let (_s, _g, out) = run::run_generated(&prop, seed, idx, None);
+        if let Some(f) = out.found {
+            println!("SEQ-FIRST {} {}", idx, f.viol.kind);
+            return 1;
+        }
+    }
+    println!("SEQ-NONE");
+    0
+}
+
+fn cmd_batchreplay(args: &[String]) -> i32 {
+    let Some(path) = args.first() else { return 2 };
+    let Ok(text) = std::fs::read_to_string(path) else { return 2 };
+    let Ok(v) = serde_json::from_str::<serde_json::Value>(&text) else { return 2 };
+    let prop = v["property"].as_str().unwrap_or("").to_string();
+    let seed = v["batch_seed"].as_u64().unwrap_or(1);
+    let runs: Vec<u64> = v["runs"].as_array().map(|a| a.iter().filter_map(|x| x.as_u64()).collect()).unwrap_or_default();
+    let mut last = None;
+    for (i, idx) in runs.iter().enumerate() {
+        let (_s, _g, out) = run::run_generated(&prop, seed, *idx, None);
+        if i + 1 == runs.len() {
+            last = out.found;
+        }
+    }
+    match last {
+        Some(f) => {
+            println!("replay: after runs {:?}: step {} op {} kind {} : {}", &runs[..runs.len().min(4)], f.at, f.op, f.viol.kind, f.viol.detail);
+            println!("VIOLATION property={} replay={}", prop, path);
+            1
+        }
+        None => {
+            println!("replay: the last of the {} runs does not violate {}", runs.len(), prop);
+            0
+        }
+    }
 }
 
 fn write_evidence_part_opt(args: &[String], o: &BatchOpts, out: &run::BatchOut, nviol: u32) {
